@@ -387,7 +387,7 @@ PROPS["C12"] = dict(
     streams=["C12"],
     compare=cmp_laws,
     classify=classify_c12,
-    gate_imports="From Coq Require Import String Ascii.\nFrom Cel.Model Require Import Literals Surface.\nFrom Cel.Proofs Require Import LiteralProofs LexerRoundtrip.\nOpen Scope N_scope.",
+    gate_imports="From Coq Require Import String Ascii.\nFrom Cel.Model Require Import Literals Surface.\nFrom Cel.Proofs Require Import LiteralProofs LexerRoundtrip RawLiterals.\nOpen Scope N_scope.",
     exhaustive=True,
     exhaustive_note="every single-character escape, all 256 \\x, \\X and octal escapes, a 1/16 sample plus "
                     "all boundaries of the 65536 \\u escapes (thorough: all of them), \\U plane boundaries and "
